@@ -43,6 +43,10 @@ func propC04(c *ctx) error {
 		}
 		if n == 3 {
 			cs = append(cs, coll{"arr", vIntArray3(10, 20, 30), its, keys, true})
+			// arrays whose items are all zero values are still rendered once per item
+			cs = append(cs, coll{"arrz", vIntArray3(0, 0, 0), []string{"0", "0", "0"}, keys, true})
+			cs = append(cs, coll{"arrz1", vIntArray3(0, 0, 5), []string{"0", "0", "5"}, keys, true})
+			cs = append(cs, coll{"intsz", vIntSlice(0, 0, 0), []string{"0", "0", "0"}, keys, true})
 		}
 		if n <= 4 {
 			s := "héllo"[:0]
@@ -59,7 +63,13 @@ func propC04(c *ctx) error {
 			cs = append(cs, coll{"m1", vMap(kv{"only", vInt(7)}), []string{"7"}, []string{"only"}, true})
 		}
 		if n == 0 {
-			cs = append(cs, coll{"m0", vMap(), nil, nil, true}, coll{"num", vInt(5), nil, nil, false}, coll{"nilv", vNil(), nil, nil, false}, coll{"boolv", vBool(true), nil, nil, false})
+			cs = append(cs, coll{"m0", vMap(), nil, nil, true}, coll{"num", vInt(5), nil, nil, false}, coll{"nilv", vNil(), nil, nil, false}, coll{"boolv", vBool(true), nil, nil, false},
+				// zero values of non-collection kinds are non-collections too
+				coll{"zeroi", vInt(0), nil, nil, false}, coll{"falsev", vBool(false), nil, nil, false}, coll{"zerof", vF64(0), nil, nil, false},
+				coll{"zerost", vS(0, "", nil), nil, nil, false}, coll{"nilptr", vNilPtrS(), nil, nil, false}, coll{"zeroi64", vI64(0), nil, nil, false})
+		}
+		if n == 2 {
+			cs = append(cs, coll{"sarrz", vStrArray2("", ""), []string{"", ""}, keys, true})
 		}
 		if n == 2 {
 			cs = append(cs, coll{"nest", vAnySlice(vAnySlice(vInt(1), vInt(2)), vAnySlice(vInt(3))), []string{"[1 2]", "[3]"}, keys, true})
